@@ -12,6 +12,7 @@ SCSI_XFER_READ = 1
 SCSI_XFER_WRITE = 2
 
 LOG = []
+DISCONNECT_RC = 0
 TARGET = None
 
 
@@ -65,6 +66,8 @@ class Context(object):
     def disconnect(self):
         LOG.append(("disconnect",))
         self.connected = False
+        # libiscsi reports 0, or -1 when the disconnect itself failed (the harness sets DISCONNECT_RC for that)
+        return DISCONNECT_RC
 
     def command(self, lun, task, dataout, datain):
         rec = {"cdb": task.cdb, "dir": task.dir, "xferlen": task.xferlen, "doutlen": len(dataout),
